@@ -110,22 +110,28 @@ def maskPositions (mask : List Bool) : List Nat :=
 def getMask (t : Table α) (mask : List Bool) : Except String (Table α) :=
   if mask.length ≠ t.nrows then .error "index" else mapCols (take (maskPositions mask)) t
 
-/-- `slice(start, stop, step).indices(n)` followed by `range` (CPython's `PySlice_AdjustIndices`) -/
+/-- Python's clamping of a slice bound for a positive step: into `[0, n]` -/
+def clampPos (n' x : Int) : Int := if x < 0 then max (x + n') 0 else min x n'
+
+/-- … and for a negative step: into `[-1, n-1]` -/
+def clampNeg (n' x : Int) : Int := if x < 0 then max (x + n') (-1) else min x (n' - 1)
+
+/-- `slice(start, stop, step).indices(n)[:2]` (CPython's `PySlice_AdjustIndices`) -/
+def sliceStartStop (n' : Int) (start stop : Option Int) (step : Int) : Int × Int :=
+  if step > 0 then ((start.map (clampPos n')).getD 0, (stop.map (clampPos n')).getD n')
+  else ((start.map (clampNeg n')).getD (n' - 1), (stop.map (clampNeg n')).getD (-1))
+
+/-- `len(range(lo, hi, step))` -/
+def sliceLen (lo hi step : Int) : Nat :=
+  if step > 0 then (if lo < hi then ((hi - lo - 1) / step + 1).toNat else 0)
+  else (if hi < lo then ((lo - hi - 1) / (-step) + 1).toNat else 0)
+
+/-- the row positions selected by `start:stop:step` in a table of `n` rows -/
 def sliceIndices (n : Nat) (start stop : Option Int) (step : Int) : Except String (List Nat) :=
-  let n' : Int := n
   if step = 0 then .error "value"
-  else if step > 0 then
-    let clamp (x : Int) : Int := if x < 0 then max (x + n') 0 else min x n'
-    let lo := match start with | none => 0 | some s => clamp s
-    let hi := match stop with | none => n' | some s => clamp s
-    let len := if lo < hi then ((hi - lo - 1) / step + 1).toNat else 0
-    .ok ((List.range len).map fun (i : Nat) => (lo + (i : Int) * step).toNat)
   else
-    let clamp (x : Int) : Int := if x < 0 then max (x + n') (-1) else min x (n' - 1)
-    let lo := match start with | none => n' - 1 | some s => clamp s
-    let hi := match stop with | none => -1 | some s => clamp s
-    let len := if hi < lo then ((lo - hi - 1) / (-step) + 1).toNat else 0
-    .ok ((List.range len).map fun (i : Nat) => (lo + (i : Int) * step).toNat)
+    let se := sliceStartStop n start stop step
+    .ok ((List.range (sliceLen se.1 se.2 step)).map fun (i : Nat) => (se.1 + (i : Int) * step).toNat)
 
 /-- `samples[start:stop:step]` -/
 def getSlice (t : Table α) (start stop : Option Int) (step : Int) : Except String (Table α) := do
